@@ -40,3 +40,23 @@ Definition access_needs (access : N) : N :=
 Definition owner_may_open (is_root : bool) (mode access : N) : bool :=
   is_root || (N.land mode (access_needs access) =? access_needs access).
 Definition lock_reopen_ok (is_root : bool) : bool := owner_may_open is_root lock_create_mode lock_open_access.
+
+(* ---- the stop command (munged --stop): its file-system footprint ----
+   lock_query opens the lock file (gen/GenStart.lock_query_creat: with O_CREAT or not), asks F_GETLK and signals the
+   holder.  Over StartModel's file system: the only thing it can change is to create the lock name. *)
+From MV Require Import StartModel.
+Definition stop_query (s : state) : state * option nat :=
+  match names s NLock with
+  | Some i => (s, lockown s i)
+  | None => if lock_query_creat then (alloc s NLock lock_inode, None) else (s, None)
+  end.
+
+(* ---- the seed file a start finds, and whether the clean stop of that life writes a seed ----
+   main() forgets the seed path (and random_fini writes nothing) iff random_init returns < 0, i.e. iff
+   _random_read_entropy_from_file does (gen/GenStart.seed_start_*_keeps_path, observed on real files). *)
+Inductive seed_found := SeedAbsent | SeedGood | SeedShort | SeedUntrusted.   (* untrusted: mode, owner, symlink *)
+Definition stop_writes_seed (f : seed_found) : bool :=
+  match f with
+  | SeedUntrusted => seed_start_bad_keeps_path && seed_start_bad_removed
+  | _ => seed_start_ok_keeps_path
+  end.
